@@ -11,6 +11,9 @@ use serde_json::{json, Value};
 
 pub struct SvmSys {
     pub w: World,
+    /// the key currently recorded as the global fee admin (it may hand the role to its second key and back)
+    pub admin: solana_program::pubkey::Pubkey,
+    edits: u32,
 }
 
 impl SvmSys {
@@ -23,7 +26,8 @@ impl SvmSys {
         if d > 0 {
             w.vm.advance(d);
         }
-        Some(SvmSys { w })
+        let admin = w.roles.fee_admin;
+        Some(SvmSys { w, admin, edits: 0 })
     }
     fn fee_state(&self) -> FeeState {
         let d = self.w.vm.data(&self.w.fee_state);
@@ -46,8 +50,37 @@ impl PauseSystem for SvmSys {
     }
     fn apply(&mut self, op: Op) -> bool {
         match op {
-            Op::Pause => self.w.vm.exec(&self.w.ix_panic_pause(self.w.roles.fee_admin)).is_ok(),
-            Op::AdminUnpause => self.w.vm.exec(&self.w.ix_panic_unpause(self.w.roles.fee_admin)).is_ok(),
+            Op::Pause => self.w.vm.exec(&self.w.ix_panic_pause(self.admin)).is_ok(),
+            Op::AdminUnpause => self.w.vm.exec(&self.w.ix_panic_unpause(self.admin)).is_ok(),
+            Op::Other(k) => {
+                // edit_global_fee_state by the current admin: k = 0 keeps the admin and changes a fee parameter,
+                // k >= 1 hands the role to the admin's other key (primary <-> second)
+                use anchor_lang::{InstructionData, ToAccountMetas};
+                let second = kp("fee_admin_second", 0);
+                if self.w.vm.get(&second).is_none() {
+                    self.w.vm.set(second, wallet_acct(10_000_000_000));
+                }
+                let new_admin = if k == 0 { self.admin } else if self.admin == second { self.w.roles.fee_admin } else { second };
+                self.edits += 1;
+                let ix = mfi_ix(
+                    marginfi::accounts::EditFeeState { global_fee_admin: self.admin, fee_state: self.w.fee_state }.to_account_metas(Some(true)),
+                    marginfi::instruction::EditGlobalFeeState {
+                        admin: new_admin,
+                        fee_wallet: self.w.fee_wallet,
+                        bank_init_flat_sol_fee: self.w.spec.bank_init_flat_sol_fee + self.edits % 3,
+                        liquidation_flat_sol_fee: self.w.spec.liq_flat_sol_fee,
+                        program_fee_fixed: w_mill(self.w.spec.program_fee_fixed),
+                        program_fee_rate: w_mill(self.w.spec.program_fee_rate),
+                        liquidation_max_fee: w_mill(self.w.spec.liq_max_fee),
+                    }
+                    .data(),
+                );
+                let ok = self.w.vm.exec(&ix).is_ok();
+                if ok {
+                    self.admin = new_admin;
+                }
+                ok
+            }
             Op::PermissionlessUnpause => self.w.vm.exec(&self.w.ix_panic_unpause_permissionless()).is_ok(),
             Op::Propagate => self.w.vm.exec(&self.w.ix_propagate_fee_state()).is_ok(),
             Op::Wait(d) => {
@@ -81,11 +114,12 @@ fn op_strategy() -> impl Strategy<Value = Op> {
         2 => Just(Op::AdminUnpause),
         2 => Just(Op::PermissionlessUnpause),
         3 => Just(Op::Propagate),
+        2 => (0u8..3).prop_map(Op::Other),
         6 => delta.prop_map(Op::Wait),
     ]
 }
 
-pub const RULE: &str = "instruction level: random histories (boundary-biased waits) of panic_pause / panic_unpause / panic_unpause_permissionless / propagate_fee_state executed through the real program entry point in a generated-time world; after every step the same history invariants as the pure part are judged on the fee-state bytes, and the gate is observed by executing a real deposit (with the group's cache as last propagated, and with a freshly propagated cache). Non-trivial = history with an extension and a daily reset, or a gate query within 1 s of expiry.";
+pub const RULE: &str = "instruction level: random histories (boundary-biased waits) of panic_pause / panic_unpause / panic_unpause_permissionless / propagate_fee_state / edit_global_fee_state (fee parameters, admin hand-over to a second key and back) executed through the real program entry point in a generated-time world; after every step the same history invariants as the pure part are judged on the fee-state bytes, and the gate is observed by executing a real deposit (with the group's cache as last propagated, and with a freshly propagated cache). Non-trivial = history with an extension and a daily reset, or a gate query within 1 s of expiry.";
 
 fn run_seq(t0: i64, ops: &[Op]) -> Option<crate::props::c15::HistoryResult> {
     let mut sys = SvmSys::new(t0)?;
